@@ -20,14 +20,14 @@ CFG = dict(
                    "a table/index/profile triple leaks the index/profile (C12_torn_triple_leak).",
         rule="fixed witnesses (fixed defects 98a13da shallow+orphan with the absent table id before/between/after, b7554dd orphan chains "
              "crashed at every delete, early return with orphan table, torn triple, missing parent, dangling ref, shared tables, merges, "
-             "all four ref kinds); exhaustive: all DAGs of 2 (quick; sample of 3) / 3 (thorough) commits x table in {t1,t2,shallow} x ref "
+             "all four ref kinds; every ref-name shape - flat and multi-component heads/a/b, tags/rel/1/t, remotes/origin/feature/x, remotes/my/remote/x, txs/<uuid>/feature/x, txs/<uuid>/a/b/c, transactions with and without a row in the ref store - as the ONLY ref keeping a commit alive, also through `wrgl prune`/`wrgl gc`); exhaustive: all DAGs of 2 (quick; sample of 3) / 3 (thorough) commits x table in {t1,t2,shallow} x ref "
              "subsets, ops prune,prune, plus every crash prefix for a sample; random: 3..25 commits, 1..8 tables sharing blocks, leftovers, "
              "shallow commits, refs of all kinds, op sequences of prune / delete ref / set ref / crash-prune k; ~8% tables built by the real "
              "ingest; a few `wrgl prune` / `wrgl gc` runs on badger+sqlite repos. distinct = distinct case text; non-trivial = >= 3 "
              "commits and at least one prune op that deletes something",
         trusted=["ids are abstract small numbers mapped to real 16-byte sums by the harness; the model sorts by id, the code by sum: "
                  "per-kind delete sets and the kind sequence are compared, for crash cases the generator picks object bytes whose sum order "
-                 "equals the id order; refs: all of ListAllRefs are roots, names irrelevant",
+                 "equals the id order; refs: every ref of the case is a root whatever its name (the oracle's roots are the harness's own ref map, cross-checked against ListAllRefs of the store before and after each prune)",
                  "objects are well-formed (GetCommit/GetTable of stored keys decode); one store.Delete is atomic"],
         assumptions=["Acyclic: the parent relation of stored commits has no cycle (hash-based ids)",
                      "stored commit/table objects decode (hostile bytes are C17's subject)",
